@@ -821,7 +821,7 @@ func ruleIndexMapUse(rule string) ruleFn {
 						return
 					}
 					found = true
-					lk, ok := mu.Key.(*ssa.Lookup)
+					lk, ok := lookupOf(mu.Key)
 					if idx != nil && ok && R.V(lk.X) == "$0.readerIndex" && strip(lk.Index) == strip(idx) && sameValue(mu.Value, errOfCall(call)) {
 						c.OK(rule, key, c.P.InstrPos(in), "retError.Errors[r.readerIndex[index]] = err with the index that selected r.readers[index]", true)
 					} else {
@@ -874,4 +874,13 @@ func rangePhi(v ssa.Value) ssa.Value {
 		return b.X
 	}
 	return v
+}
+
+// lookupOf: v is a map lookup, in either form (`m[k]` or the value of `v, ok := m[k]`).
+func lookupOf(v ssa.Value) (*ssa.Lookup, bool) {
+	if ex, ok := v.(*ssa.Extract); ok && ex.Index == 0 {
+		v = ex.Tuple
+	}
+	lk, ok := v.(*ssa.Lookup)
+	return lk, ok
 }
